@@ -113,8 +113,8 @@ impl<'a> CompModel<'a> {
                "schedule": compact_schedule(path)})
     }
     fn viol(&self, owner: &str, site: &str, what: String, path: &[Act]) {
-        if owner == self.prop || (self.prop == "C02" && owner == "C16") {
-            let o = if owner == "C16" { "C02" } else { owner };
+        if owner == self.prop {
+            let o = owner;
             self.rep.violation(&format!("{}/{}", o, site), format!("{} :: {} {:?} on {} after {} calls", what, self.cfg.name(), self.entry, self.name, path.len()), self.rp(path));
         }
     }
@@ -431,13 +431,30 @@ struct Acc {
     runs: u64,
 }
 
+pub struct Explored {
+    pub total: Stats,
+    pub cov: BTreeMap<&'static str, u64>,
+    pub runs: u64,
+    pub work_items: usize,
+    pub secs: [f64; 3],
+    pub full_depth: usize,
+    pub cfg_names: Vec<String>,
+}
+
 pub fn run(tier: &str, prop: &str) -> i32 {
     let rep = Report::new(prop, tier, "model_checking");
     let th = rep.thorough();
+    let ex = explore(&rep, prop, th);
+    finish_report(&rep, prop, th, ex)
+}
+
+/// The schedule exploration itself; `prop` selects which monitors report (C02, C12 or C16).
+pub fn explore(rep: &Report, prop: &str, th: bool) -> Explored {
+    let rep: &Report = rep;
     let small = small_inputs();
     let medium = corpus::medium_inputs();
     let long = corpus::long_inputs();
-    let cfgs = explore_cfgs(th);
+    let cfgs: Vec<Cfg> = if prop == "C16" { explore_cfgs(th).into_iter().filter(|c| c.zlib).collect() } else { explore_cfgs(th) };
     let entries = [Entry::Compress, Entry::Callback, Entry::Deflate];
     #[derive(Clone, Copy)]
     enum Work {
@@ -661,6 +678,16 @@ pub fn run(tier: &str, prop: &str) -> i32 {
             *cov.entry(k).or_insert(0) += v;
         }
     }
+    let cfg_names: Vec<String> = cfgs.iter().map(|c| c.name()).collect();
+    Explored { total, cov, runs, work_items: work.len(), secs, full_depth, cfg_names }
+}
+
+fn finish_report(rep: &Report, prop: &str, th: bool, ex: Explored) -> i32 {
+    let Explored { total, cov, runs, work_items, secs, full_depth, cfg_names } = ex;
+    let medium = corpus::medium_inputs();
+    let long = corpus::long_inputs();
+    let small = small_inputs();
+    let cfgs: Vec<Cfg> = explore_cfgs(th);
     // C12 extra: NoSync ... Sync equivalence on every split of the medium inputs' prefixes
     let mut nosync_pairs = 0u64;
     if prop == "C12" {
@@ -704,12 +731,12 @@ pub fn run(tier: &str, prop: &str) -> i32 {
     rep.set("traces_validated_against_impl", json!(total.executions.max(cov.get("terminal_ref_decodes").copied().unwrap_or(0))));
     rep.set("explorations", json!(runs));
     rep.set("cpu_seconds_by_kind", json!({"full_depth_small": secs[0], "deviation_medium": secs[1], "deviation_long": secs[2]}));
-    rep.set("work_items", json!(work.len()));
+    rep.set("work_items", json!(work_items));
     rep.set("max_calls_in_one_execution", json!(total.max_depth));
     rep.set("capped", json!(total.capped));
     rep.set("full_depth_completed_small_inputs", json!(full_depth));
     rep.set("deviation_bound_completed", json!(1));
-    rep.set("configurations", json!(cfgs.iter().map(|c| c.name()).collect::<Vec<_>>()));
+    rep.set("configurations", json!(cfg_names));
     rep.set("monitor_events", json!(cov));
     rep.set("nosync_sync_pairs", json!(nosync_pairs));
     rep.set("explanation", json!("real CompressorOxide (fork = Clone) through compress / compress_to_output / deflate; legal schedules: the first Finish(k) declares the end of the input, afterwards only the output capacity varies; small inputs: every action sequence over chunk {0,1,2,rest} x capacity {1,5,large} x 6-8 flush modes to the stated depth, then default completion; medium and long inputs (66-200 KB): deviation-bounded search around constant background policies incl. tiny-chunk and tiny-buffer ones, a deviating call at every (or every n-th) call index; oracles: counts, status, running Adler-32, at Done one strict-producer stream decoding to the declared input (reference decoder, sampled system zlib and crate decoder), flush-point prefix decodability and markers, Full-flush history cut and standalone remainder"));
